@@ -30,4 +30,8 @@ Definition run_misc_node (c : mcase) : sx :=
                            end ]) ents);
       L [ sx_err_or sx_bool (tree_eq tt); sx_nat (tree_len reg); sx_nat (tree_count reg); sx_bool (tree_bool reg);
           sx_on (tree_first_child f); sx_on (tree_last_child f); sx_text (tree_repr (nm 2%nat) (nm 3%nat)) ];
-      L (map (fun d => sx_err_or sx_nat (get_random_node reg d)) (mc_draws c)) ].
+      L (map (fun d => sx_err_or sx_nat (get_random_node reg d)) (mc_draws c));
+      (* n == m for every ordered pair, n == n.data, hash(n) *)
+      L [ L (map (fun a => L (map (fun b => sx_bool (node_eq a b)) (pre_f f))) (pre_f f));
+          L (map (fun a => sx_bool (node_eq_obj a (i_eqc (rinfo a)))) (pre_f f));
+          sx_err_or A (node_hash tt) ] ].
